@@ -116,6 +116,9 @@ def cmd_check(args) -> int:
         xobls = [o for o in xobls if re.search(args.only, o.name)]
         zobls = [z for z in zobls if re.search(args.only, z["name"])]
     jobs = args.jobs or min(16, os.cpu_count() or 4)
+    # engine Z's second solver: how many decided queries per obligation are re-asked to cvc5, and for how long each
+    os.environ.setdefault("VF_Z_CROSS", "4" if tier == "quick" else "10")
+    os.environ.setdefault("VF_Z_CROSS_MS", "8000" if tier == "quick" else "30000")
     if tier == "thorough" and xobls:
         # size the thorough tier by total wall time: if every obligation ran into its timeout the run would take
         # sum(timeouts)/jobs; scale the per-obligation budgets down (never below the quick budget) to fit VF_THOROUGH_BUDGET
@@ -175,6 +178,10 @@ def cmd_check(args) -> int:
     for z in zres:
         if z.get("verdict") == "error":
             harness_errors.append(z["name"])
+        if z.get("verdict") == "solver-disagreement":
+            # z3 and cvc5 gave opposite answers on the same SMT-LIB text: the obligation decides nothing
+            # (witnesses that replay on the real code below are still violations)
+            disagreements.append(z["name"] + " (z3 vs cvc5: " + json.dumps((z.get("crosscheck") or {}).get("disagree", [])[:2]) + ")")
         for w in z.get("violations", []):
             # each w: {"what":..., "witness":..., "replay": {"module","func","args","env"}}
             idx += 1
